@@ -136,6 +136,26 @@ def run(ck):
         for pr in ob["problems"]:
             ck.corr_problem("traced run of generated configuration", pr, case={"nodes": nodes})
 
+    # configurations outside the model's JSON domain (mapping values with non-string keys, as YAML `{2: .., 10: ..}` loads): the
+    # identity paths of ONE configuration must still agree with each other (direct oracle only)
+    extra_path_cfgs = [
+        [{"processor": "FloatValueDataSource", "parameters": {"value": 1.0}},
+         {"processor": "FloatMultiplyOperation",
+          "derive": {"parameter_sweep": {"parameters": {"factor": "t"}, "variables": {"t": [{2: 1.0, 10: 2.0}, {2: 3.0, 10: 4.0}]}, "collection": "FloatDataCollection"}}}],
+        [{"processor": "FloatValueDataSource", "parameters": {"value": 1.0}},
+         {"processor": "FloatMultiplyOperation", "parameters": {"factor": {1: "a", 12: "b", 3: {20: 1, 3: 2}}}}],
+        [{"processor": "FloatValueDataSource", "parameters": {"value": 1.0}},
+         {"processor": "FloatMultiplyOperation",
+          "derive": {"parameter_sweep": {"parameters": {"factor": "t"}, "variables": {"t": {"values": [{1.5: 1, 10.25: 2}, {True: 1, False: 0}]}}, "collection": "FloatDataCollection"}}}],
+    ]
+    for xi, xc in enumerate(extra_path_cfgs):
+        try:
+            check_paths("extra%d" % xi, xc, G.observe(xc))
+        except G.Mismatch as ex:
+            ck.fail_input("C04:paths:disagree-on-pristine-configuration:non-string-mapping-keys",
+                          "the identity paths of one pristine configuration (mapping values with non-string keys) disagree: %s" % ex, {"kind": "paths", "nodes": json.loads(json.dumps(xc, default=str))})
+        except Exception as ex:  # noqa
+            ck.notes.setdefault("extra_path_configs_rejected", []).append(repr(ex)[:160])
     for bi, (name, nodes) in enumerate(bases):
         # prior history: an ==-equal but differently typed twin is built and run first (a cache keyed by
         # value equality would hand its classes / ids to the configuration under test); the fresh-process
